@@ -1,10 +1,366 @@
-import LitexModel.Soc.Bus
-import LitexModel.Soc.Loc
-import LitexModel.Soc.Cm
+import LitexProofs.Soc.Finalize
+import LitexProofs.Soc.LocInv
+import LitexProofs.Soc.CmInv
+import LitexProofs.Soc.CmConstraints
+/-
+  C13 — SoC resource allocation never hands out overlapping or out-of-range resources.
+
+  Every theorem quantifies over an arbitrary call history `ops` (a list of requests) on a freshly created
+  handler, with arbitrary parameters (address/data width, number of locations, IO table).  `run` skips rejected
+  requests (the real code raises `SoCError`/`ConstraintError` and the build stops), so "a history of successful
+  requests" is the special case in which nothing is skipped.  Names `ν` are arbitrary.
+-/
 namespace Litex.C13
 open Litex.Soc
+variable {ν : Type} [DecidableEq ν]
 
-/-- placeholder while the proofs are being built (M1) -/
-theorem anyOverlap_nil : anyOverlap [] = false := rfl
+/-! ## Bus regions -/
+
+/-- After any call history on a bus handler: region names are unique across `regions ∪ io_regions`, any two
+    distinct non-linker regions have disjoint decoded (power-of-two) windows, likewise any two IO regions,
+    slave names are unique and every slave has a region. -/
+theorem regions_disjoint_inv (aw dw : Nat) (ops : List (BusOp ν)) :
+    let s := ({ aw := aw, dw := dw } : BusH ν).run ops
+    (s.regions.map (·.1) ++ s.ioRegions.map (·.1)).Nodup ∧
+    (∀ n0 r0 n1 r1, (n0, r0) ∈ s.regions → (n1, r1) ∈ s.regions → n0 ≠ n1 →
+        r0.linker = false → r1.linker = false → WinDisjoint r0 r1) ∧
+    (∀ n0 r0 n1 r1, (n0, r0) ∈ s.ioRegions → (n1, r1) ∈ s.ioRegions → n0 ≠ n1 →
+        r0.linker = false → r1.linker = false → WinDisjoint r0 r1) ∧
+    s.slaves.Nodup ∧ (∀ n ∈ s.slaves, n ∈ s.regions.map (·.1)) := by
+  intro s
+  have hi : BusH.Inv s := BusH.run_inv ops (BusH.inv_init aw dw)
+  refine ⟨hi.names_nodup, ?_, ?_, hi.slaves_nodup, hi.slaves_have⟩
+  · intro n0 r0 n1 r1 h0 h1 hne l0 l1
+    exact (winDisjoint_iff r0 r1 l0 l1).1 (BusH.regions_pair_ok hi h0 h1 hne)
+  · intro n0 r0 n1 r1 h0 h1 hne l0 l1
+    have hp := (anyOverlap_eq_false_iff _).1 hi.ios_ok
+    unfold BusH.ios at hp
+    rw [List.pairwise_map] at hp
+    exact (winDisjoint_iff r0 r1 l0 l1).1
+      (pairwise_of_mem_ne (R := fun p q : ν × Region => overlapPair p.2 q.2 = false)
+        (fun a b h => by rw [overlapPair_comm]; exact h) hp h0 h1 (fun e => hne (congrArg Prod.fst e)))
+
+
+/-- Non-vacuity: a history with accepted fixed, allocated and IO regions and three rejected requests (duplicate
+    name, overlap on the power-of-two window `[0x2000, 0x4000)`, uncached outside IO). -/
+example :
+    (({ aw := 32, dw := 32 } : BusH Nat).run
+      [.addRegion 1 { origin := some 0x0, size := 0x1800 },
+       .addRegion 1 { origin := some 0x10000, size := 0x1000 },
+       .addRegion 2 { origin := some 0x2000, size := 0x1800 },
+       .addRegion 3 { origin := some 0x3800, size := 0x800 },
+       .addRegion 4 { io := true, origin := some 0x80000000, size := 0x10000, cached := false },
+       .addRegion 5 { origin := some 0x4000, size := 0x100, cached := false },
+       .addRegion 6 { origin := none, size := 0x1000 },
+       .addSlave 7 (some { origin := none, size := 0x100, cached := false })]).regions
+    = [(1, ⟨0x0, 0x1800, true, false, true⟩), (2, ⟨0x2000, 0x1800, true, false, true⟩),
+       (6, ⟨0x4000, 0x1000, true, false, true⟩), (7, ⟨0x80000000, 0x100, false, false, true⟩)] := by
+  decide +kernel
+
+omit [DecidableEq ν] in
+/-- `alloc_region` is sound in every state: the returned region has the requested size/cached flag, its origin is
+    aligned on its decoded size, its window is disjoint from the window of every existing non-linker region,
+    a cached region lies (window included) inside `[0, 2^address_width)`, and an uncached region lies inside
+    the *power-of-two window* of some IO region. -/
+theorem alloc_sound (s : BusH ν) (size : Nat) (cached : Bool) (r : Region)
+    (h : s.allocRegion size cached = .ok r) :
+    r.size = size ∧ r.cached = cached ∧ r.linker = false ∧ r.origin % r.p2 = 0 ∧
+    (∀ a ∈ s.regs, a.linker = false → WinDisjoint a r) ∧
+    (cached = true → r.origin + r.size < 2 ^ s.aw ∧ r.origin + r.p2 ≤ 2 ^ s.aw) ∧
+    (cached = false → ∃ io ∈ s.ios, io.origin ≤ r.origin ∧ r.origin + r.size < io.origin + io.p2) := by
+  obtain ⟨hpos, o, rfl, hal, hno, sr, hsr, h1, h2⟩ := BusH.allocRegion_ok h
+  refine ⟨rfl, rfl, rfl, hal, ?_, ?_, ?_⟩
+  · intro a ha hl
+    exact (winDisjoint_iff a _ hl rfl).1 (hno a ha)
+  · intro hc
+    subst hc
+    simp only [BusH.searchRegions, if_true, List.mem_singleton] at hsr
+    subst hsr
+    have hmain : (mainRegion s.aw).p2 ≤ 2 ^ s.aw := by
+      unfold Region.p2 mainRegion
+      exact pow2ceil_le_of_le_two_pow (Nat.sub_le _ _)
+    have horg : (mainRegion s.aw).origin = 0 := rfl
+    rw [horg, Nat.zero_add] at h2
+    have hlt : o + size < 2 ^ s.aw := by omega
+    refine ⟨hlt, ?_⟩
+    show o + pow2ceil size ≤ 2 ^ s.aw
+    exact aligned_add_le hal (pow2ceil_dvd_two_pow (by omega)) (by omega)
+  · intro hc
+    subst hc
+    simp only [BusH.searchRegions, Bool.false_eq_true, if_false] at hsr
+    exact ⟨sr, hsr, h1, h2⟩
+
+omit [DecidableEq ν] in
+/-- Full statement "an uncached allocation lies inside the *declared* size of an IO region" needs the IO sizes
+    to be powers of two (`alloc_region` bounds its search by `size_pow2` of the IO region). -/
+theorem alloc_in_io_partial (s : BusH ν) (size : Nat) (r : Region)
+    (hpow2 : ∀ io ∈ s.ios, io.size = io.p2)
+    (h : s.allocRegion size false = .ok r) :
+    ∃ io ∈ s.ios, io.origin ≤ r.origin ∧ r.origin + r.size ≤ io.origin + io.size := by
+  obtain ⟨_, _, _, _, _, _, hio⟩ := alloc_sound s size false r h
+  obtain ⟨io, hm, h1, h2⟩ := hio rfl
+  exact ⟨io, hm, h1, by rw [hpow2 io hm]; omega⟩
+
+/-- Negative witness for the full statement (known finding C13-alloc-io-nonpow2): IO region
+    `[0x80000000, +0x3000)`, two uncached `0x1800` allocations — the second lands at `0x80002000` and ends at
+    `0x80003800`, beyond the declared end `0x80003000` of the only IO region. -/
+example :
+    let s := ({ aw := 32, dw := 32 } : BusH Nat).run
+      [.addRegion 0 { io := true, origin := some 0x80000000, size := 0x3000, cached := false },
+       .addRegion 1 { origin := none, size := 0x1800, cached := false }]
+    s.allocRegion 0x1800 false = .ok (cand 0x80002000 0x1800 false) ∧
+    ¬ (∃ io ∈ s.ios, io.origin ≤ 0x80002000 ∧ 0x80002000 + 0x1800 ≤ io.origin + io.size) := by
+  decide +kernel
+
+/-- Non-vacuity of `alloc_in_io_partial`: with a power-of-two IO region the same requests stay inside. -/
+example :
+    let s := ({ aw := 32, dw := 32 } : BusH Nat).run
+      [.addRegion 0 { io := true, origin := some 0x80000000, size := 0x4000, cached := false },
+       .addRegion 1 { origin := none, size := 0x1800, cached := false }]
+    (∀ io ∈ s.ios, io.size = io.p2) ∧ s.allocRegion 0x1800 false = .ok (cand 0x80002000 0x1800 false) := by
+  decide +kernel
+
+omit [DecidableEq ν] in
+/-- The model's fuel is never exhausted: for `size > 0` the first-fit loop terminates by itself
+    (`Err.fuel` is unreachable; `size = 0` is the guard `Err.sizeZero`). -/
+theorem alloc_terminates (s : BusH ν) (size : Nat) (cached : Bool) :
+    s.allocRegion size cached ≠ .error .fuel := by
+  unfold BusH.allocRegion
+  split
+  · simp
+  · rename_i hs
+    split
+    · simp
+    · rename_i e he
+      intro hc
+      injection hc with hc
+      subst hc
+      exact allocSearch_ne_fuel (by omega) _ he
+
+/-! ## Decoders -/
+
+/-- For an origin aligned on `size_pow2`, a decoded region of at least one bus word: the predicate built by
+    `SoCRegion.decoder` accepts word address `a` exactly when byte address `a·(dw/8)` lies in
+    `[origin, origin + size_pow2)`.  (`_partial`: hypothesis `hword`, see the negative witness below.) -/
+theorem region_decoder_exact_partial (aw dw sh : Nat) (r : Region) (a : Nat)
+    (hdw : dw / 8 = 2 ^ sh) (hsh : sh ≤ aw) (ha : a < 2 ^ (aw - sh))
+    (hdec : r.decode = true) (hal : r.aligned = true)
+    (hword : dw / 8 ≤ r.p2) :
+    decoderAccepts aw dw r a = true ↔ r.InWindow (a * (dw / 8)) :=
+  decoderAccepts_iff aw dw sh r a hdw hsh hdec hal hword ha
+
+
+/-- Non-vacuity: region `[0x1000, +0x1000)` on a 32-bit bus accepts word `0x400` (byte `0x1000`) and `0x7ff`,
+    rejects `0x3ff` and `0x800`. -/
+example :
+    (decoderAccepts 32 32 ⟨0x1000, 0xc00, true, false, true⟩ 0x400, decoderAccepts 32 32 ⟨0x1000, 0xc00, true, false, true⟩ 0x7ff,
+     decoderAccepts 32 32 ⟨0x1000, 0xc00, true, false, true⟩ 0x3ff, decoderAccepts 32 32 ⟨0x1000, 0xc00, true, false, true⟩ 0x800)
+    = (true, true, false, false) := by decide +kernel
+
+/-- Negative witness for the full statement without `hword` (known finding C13-decoder-subword): a one-byte
+    region at `0x1001` on a 32-bit bus is aligned and decoded, yet its decoder accepts word `0x400`, whose byte
+    address `0x1000` is outside `[0x1001, 0x1002)`. -/
+example :
+    let r : Region := ⟨0x1001, 1, true, false, true⟩
+    r.aligned = true ∧ decoderAccepts 32 32 r 0x400 = true ∧ ¬ (r.origin ≤ 0x400 * (32 / 8)) := by decide +kernel
+
+/-- Disjoint windows give disjoint decoders. -/
+theorem disjoint_regions_disjoint_decoders_partial (aw dw sh : Nat) (r0 r1 : Region) (a : Nat)
+    (hdw : dw / 8 = 2 ^ sh) (hsh : sh ≤ aw) (ha : a < 2 ^ (aw - sh))
+    (hd0 : r0.decode = true) (hd1 : r1.decode = true) (hal0 : r0.aligned = true) (hal1 : r1.aligned = true)
+    (hw0 : dw / 8 ≤ r0.p2) (hw1 : dw / 8 ≤ r1.p2) (hdis : WinDisjoint r0 r1) :
+    ¬ (decoderAccepts aw dw r0 a = true ∧ decoderAccepts aw dw r1 a = true) :=
+  decoders_disjoint aw dw sh r0 r1 a hdw hsh ha hd0 hd1 hal0 hal1 hw0 hw1 hdis
+
+/-- An unaligned origin is refused at finalize: whenever `do_finalize` succeeds and builds a decoding
+    interconnect (some master, some slave, not the point-to-point shortcut), every slave region is aligned on
+    its decoded size. -/
+theorem finalize_rejects_unaligned (s : BusH ν) (hfin : s.finalize = .ok ())
+    (hm : s.masters ≠ []) (hs : s.slaves ≠ []) (hp : s.isP2P = false) :
+    ∀ n r, n ∈ s.slaves → s.regionOf n = some r → r.origin % r.p2 = 0 := by
+  intro n r hn hr
+  have := (BusH.finalize_ok_aligned hfin hm hs hp).2 _ (BusH.mem_slaveRegions hn hr)
+  simpa [Region.aligned] using this
+
+/-- No word address selects two slaves: after any call history followed by a successful `do_finalize`, two
+    different slaves with non-linker regions of at least one bus word never both decode the same address.
+    (`_partial`: hypotheses `hw0 hw1`.) -/
+theorem one_slave_per_address_partial (aw dw sh : Nat) (ops : List (BusOp ν))
+    (hdw : dw / 8 = 2 ^ sh) (hsh : sh ≤ aw) :
+    let s := ({ aw := aw, dw := dw } : BusH ν).run ops
+    s.finalize = .ok () → s.masters ≠ [] →
+    ∀ n0 n1 r0 r1 a, n0 ∈ s.slaves → n1 ∈ s.slaves → n0 ≠ n1 →
+      s.regionOf n0 = some r0 → s.regionOf n1 = some r1 → r0.linker = false → r1.linker = false →
+      dw / 8 ≤ r0.p2 → dw / 8 ≤ r1.p2 → a < 2 ^ (aw - sh) →
+      ¬ (decoderAccepts s.aw s.dw r0 a = true ∧ decoderAccepts s.aw s.dw r1 a = true) := by
+  intro s hfin hm n0 n1 r0 r1 a hn0 hn1 hne hr0 hr1 hl0 hl1 hw0 hw1 ha
+  have hi : BusH.Inv s := BusH.run_inv ops (BusH.inv_init aw dw)
+  have hs : s.slaves ≠ [] := List.ne_nil_of_mem hn0
+  have hlen : 2 ≤ s.slaves.length := BusH.two_le_length_of_mem_ne hn0 hn1 hne
+  have hp : s.isP2P = false := by
+    unfold BusH.isP2P
+    have : (s.slaves.length == 1) = false := by simp; omega
+    simp [this]
+  obtain ⟨hdec, hal⟩ := BusH.finalize_ok_aligned hfin hm hs hp
+  have m0 := BusH.regionOf_some hr0
+  have m1 := BusH.regionOf_some hr1
+  have hlen2 : 2 ≤ s.regions.length := BusH.two_le_length_of_mem_ne m0 m1 (fun e => hne (congrArg Prod.fst e))
+  have hall : ∀ p ∈ s.regions, p.2.decode = true := by
+    have : s.regions.any (fun p => !p.2.decode) = false := by
+      have hd : decide (s.regions.length > 1) = true := by simp; omega
+      simpa [hd] using hdec
+    intro p hp
+    have := List.any_eq_false.1 this p hp
+    simpa using this
+  have hdis : WinDisjoint r0 r1 := (winDisjoint_iff r0 r1 hl0 hl1).1 (BusH.regions_pair_ok hi m0 m1 hne)
+  obtain ⟨haw, hdw'⟩ := BusH.run_widths ops ({ aw := aw, dw := dw } : BusH ν)
+  show ¬ (decoderAccepts s.aw s.dw r0 a = true ∧ decoderAccepts s.aw s.dw r1 a = true)
+  rw [haw, hdw']
+  exact decoders_disjoint aw dw sh r0 r1 a hdw hsh ha (hall _ m0) (hall _ m1)
+    (hal _ (BusH.mem_slaveRegions hn0 hr0)) (hal _ (BusH.mem_slaveRegions hn1 hr1)) hw0 hw1 hdis
+
+
+/-- Non-vacuity: two slaves and a master, finalize succeeds, the hypotheses hold, and each decoder accepts
+    addresses of its own window. -/
+example :
+    let s := ({ aw := 32, dw := 32 } : BusH Nat).run
+      [.addSlave 1 (some { origin := some 0x0, size := 0x1000 }), .addMaster 9,
+       .addSlave 2 (some { origin := some 0x2000, size := 0x1800 })]
+    s.finalize = .ok () ∧ s.masters ≠ [] ∧ s.slaves = [1, 2] ∧
+    s.regionOf 2 = some ⟨0x2000, 0x1800, true, false, true⟩ ∧
+    decoderAccepts 32 32 ⟨0x2000, 0x1800, true, false, true⟩ 0xfff = true ∧
+    decoderAccepts 32 32 ⟨0x0, 0x1000, true, false, true⟩ 0xfff = false := by decide +kernel
+
+/-- Negative witness without `hw0 hw1` (known finding C13-decoder-subword): the disjoint one-byte regions at
+    `0x1001` and `0x1002` are both accepted, finalize succeeds, and both decoders select word `0x400`. -/
+example :
+    let s := ({ aw := 32, dw := 32 } : BusH Nat).run
+      [.addSlave 1 (some { origin := some 0x1001, size := 1 }), .addSlave 2 (some { origin := some 0x1002, size := 1 }),
+       .addMaster 9]
+    s.finalize = .ok () ∧ s.slaves = [1, 2] ∧
+    s.regionOf 1 = some ⟨0x1001, 1, true, false, true⟩ ∧ s.regionOf 2 = some ⟨0x1002, 1, true, false, true⟩ ∧
+    decoderAccepts 32 32 ⟨0x1001, 1, true, false, true⟩ 0x400 = true ∧
+    decoderAccepts 32 32 ⟨0x1002, 1, true, false, true⟩ 0x400 = true := by decide +kernel
+
+/-- An unaligned slave origin is refused by finalize (and accepted once aligned). -/
+example :
+    (({ aw := 32, dw := 32 } : BusH Nat).run
+      [.addSlave 1 (some { origin := some 0x800, size := 0x1000 }), .addSlave 2 (some { origin := some 0x4000, size := 0x1000 }),
+       .addMaster 9]).finalize = .error .unaligned := by decide +kernel
+
+/-! ## CSR pages and interrupt numbers -/
+
+/-- Names and numbers are granted at most once, after any history on any handler (`n` locations, IRQ handlers
+    start disabled, CSR handlers enabled). -/
+theorem loc_injective (n : Nat) (enabled : Bool) (ops : List (LocOp ν)) :
+    let s := ({ nLocs := n, enabled := enabled } : LocH ν).run ops
+    (s.locs.map (·.1)).Nodup ∧ (s.locs.map (·.2)).Nodup := by
+  intro s
+  have hi := (LocH.run_inv ops (LocH.inv_empty (ν := ν) n enabled)).1
+  exact ⟨hi.names_nodup, hi.locs_nodup⟩
+
+/-- Every granted number lies in `[0, n_locs)` (this is the statement that failed before fix F1). -/
+theorem loc_in_range (n : Nat) (enabled : Bool) (ops : List (LocOp ν)) :
+    let s := ({ nLocs := n, enabled := enabled } : LocH ν).run ops
+    ∀ p ∈ s.locs, 0 ≤ p.2 ∧ p.2 < (n : Int) := by
+  intro s
+  obtain ⟨hi, hn⟩ := LocH.run_inv ops (LocH.inv_empty (ν := ν) n enabled)
+  intro p hp
+  have := hi.in_range p hp
+  rw [hn] at this
+  exact this
+
+/-- Non-vacuity and the fixed finding C13-loc-eq-nlocs: on a 32-entry handler, `31` and an automatic location are
+    granted; `n = n_locs = 32`, `33`, `-1`, a used number and a used name are all rejected. -/
+example :
+    (({ nLocs := 32 } : LocH Nat).run
+      [.add 1 (some 31) false, .add 2 none false, .add 3 (some 32) false, .add 4 (some 33) false,
+       .add 5 (some (-1)) false, .add 6 (some 31) false, .add 1 (some 7) false, .add 1 (some 7) true]).locs
+    = [(1, 31), (2, 0)] := by decide +kernel
+
+example : ({ nLocs := 32 } : LocH Nat).add 7 (some 32) false = .error .tooHigh := by decide +kernel
+
+example : (csrHandler Nat 32 14 32 0x800).map (·.nLocs) = .ok 32 := by decide +kernel
+
+omit [DecidableEq ν] in
+/-- The two concrete handlers are instances: a successfully constructed CSR/IRQ handler is empty, with
+    `n_locs = alignment/8·2^address_width/paging` resp. `n_irqs ≤ 32`. -/
+theorem handlers_start_empty (dwid awid al pg nIrqs : Nat) (h : LocH ν) :
+    (csrHandler ν dwid awid al pg = .ok h → h = { nLocs := al / 8 * 2 ^ awid / pg, enabled := true }) ∧
+    (irqHandler ν nIrqs = .ok h → h = { nLocs := nIrqs, enabled := false } ∧ nIrqs ≤ 32) := by
+  constructor
+  · intro hh
+    unfold csrHandler at hh
+    repeat (split at hh; · cases hh)
+    injection hh with hh
+    exact hh.symm
+  · intro hh
+    unfold irqHandler at hh
+    split at hh
+    · cases hh
+    · injection hh with hh
+      exact ⟨hh.symm, by omega⟩
+
+/-! ## Platform IO resources -/
+
+/-- Table entries are conserved by every request/lookup history: what is available plus what has been granted is
+    a permutation of the initial table plus all extensions.  Hence an entry is granted at most once. -/
+theorem cm_request_once (io : List Res) (ops : List CmOp) :
+    let s := ({ available := io } : Cm).run ops
+    (s.available ++ s.matched).Perm (io ++ Cm.extensions ops) := by
+  intro s
+  simpa using Cm.run_perm { available := io } ops
+
+/-- With distinct table entries: no entry is granted twice and a granted entry is no longer available. -/
+theorem cm_granted_once (io : List Res) (ops : List CmOp) (hnd : ((io ++ Cm.extensions ops).map (·.uid)).Nodup) :
+    let s := ({ available := io } : Cm).run ops
+    (s.matched.map (·.uid)).Nodup ∧ ∀ r ∈ s.matched, ∀ r' ∈ s.available, r.uid ≠ r'.uid := by
+  intro s
+  have hp := (cm_request_once io ops).map (·.uid)
+  have hn := hp.nodup_iff.2 hnd
+  rw [List.map_append, List.nodup_append] at hn
+  refine ⟨hn.2.1, ?_⟩
+  intro r hr r' hr' e
+  exact hn.2.2 r'.uid (List.mem_map_of_mem hr') r.uid (List.mem_map_of_mem hr) e.symm
+
+/-- A grant comes from `available`, carries the requested name/number, and ends up in `matched`. -/
+theorem cm_request_grants_available (s s' : Cm) (name : Nat) (num : Option Nat) (loose : Bool) (r : Res)
+    (h : s.request name num loose = .ok (s', some r)) :
+    r ∈ s.available ∧ r.name = name ∧ (∀ k, num = some k → r.num = k) ∧
+      s'.available = s.available.erase r ∧ s'.matched = s.matched ++ [r] := by
+  rcases Cm.request_spec h with ⟨h1, _⟩ | ⟨r', h1, hm, hn, hk, ha, hma⟩
+  · cases h1
+  · injection h1 with h1
+    subst h1
+    exact ⟨hm, hn, hk, ha, hma⟩
+
+/-- `lookup_request` only returns granted entries (and only existing subsignals of them). -/
+theorem cm_lookup_only_matched (s : Cm) (name : Nat) (num sub : Option Nat) (loose : Bool) (r : Res) (sb : Option Nat)
+    (h : s.lookup name num sub loose = .ok (some (r, sb))) :
+    r ∈ s.matched ∧ r.name = name ∧ (∀ k, num = some k → r.num = k) ∧ (∀ x, sb = some x → x ∈ r.subs) := by
+  obtain ⟨h1, h2, h3, _, h5⟩ := Cm.lookup_spec h
+  exact ⟨h1, h2, h3, h5⟩
+
+/-- `get_sig_constraints` emits each (entry, subsignal) key at most once. -/
+theorem cm_constraints_once (io : List Res) (ops : List CmOp)
+    (hnd : ((io ++ Cm.extensions ops).map (·.uid)).Nodup) (hsubs : ∀ r ∈ io ++ Cm.extensions ops, r.subs.Nodup) :
+    (({ available := io } : Cm).run ops).sigConstraints.Nodup := by
+  have hp := cm_request_once io ops
+  refine Cm.sigConstraints_nodup _ (cm_granted_once io ops hnd).1 ?_
+  intro r hr
+  exact hsubs r (hp.subset (List.mem_append_right _ hr))
+
+/-- Non-vacuity: a table with a duplicate-free `led` bank and a record resource; double requests fail, the
+    loose one returns nothing, `request_all` takes what is left, lookups see only granted entries. -/
+example :
+    let io : List Res := [⟨0, 1, 0, []⟩, ⟨1, 1, 1, []⟩, ⟨2, 1, 2, []⟩, ⟨3, 3, 0, [5, 6]⟩]
+    let ops : List CmOp := [.request 1 (some 1) false, .request 1 (some 1) false, .request 1 (some 1) true,
+      .lookup 3 none none true, .request 3 none false, .lookup 3 (some 0) (some 6) false, .requestRemaining 1]
+    (({ available := io } : Cm).outs ops).map (fun o => match o with
+        | .granted l => l.map (·.uid) | .found r _ => [r.uid] | _ => [])
+      = [[1], [], [], [], [3], [3], [0, 2]] ∧
+    (({ available := io } : Cm).run ops).available = [] ∧
+    (({ available := io } : Cm).run ops).sigConstraints = [(1, none), (3, some 5), (3, some 6), (0, none), (2, none)] := by
+  decide +kernel
 
 end Litex.C13
